@@ -345,6 +345,79 @@ fn main() {
         }
     }
 
+    // mode 1: operation mixes whose outcome depends on the interleaving (oracle only)
+    for t in 2..=8u64 {
+        for rep in 0..reps {
+            // (c) node deletions racing edge creations/deletions on the same nodes
+            let nn = rng.range(4, 8);
+            let mut setup = vec![];
+            for _ in 0..nn {
+                setup.push(Op::CreateNode);
+            }
+            let pre = rng.range(10, 40);
+            for _ in 0..pre {
+                let f = rng.range(1, nn);
+                let to = if rng.chance(1, 8) { f } else { rng.range(1, nn) };
+                setup.push(Op::CreateEdge(f, to, rng.chance(1, 2)));
+            }
+            let threads: Vec<Vec<Op>> = (0..t)
+                .map(|ti| {
+                    (0..rng.range(10, 40))
+                        .map(|_| {
+                            let k = rng.below(100);
+                            if ti == 0 && k < 25 {
+                                Op::DeleteNode(rng.range(1, nn))
+                            } else if k < 60 {
+                                let f = rng.range(1, nn);
+                                Op::CreateEdge(f, rng.range(1, nn), rng.chance(1, 2))
+                            } else if k < 85 {
+                                Op::DeleteEdge(rng.range(1, pre + 20))
+                            } else if k < 93 {
+                                Op::UpdateEdge(rng.range(1, pre + 20))
+                            } else {
+                                Op::CreateNode
+                            }
+                        })
+                        .collect()
+                })
+                .collect();
+            conc_case(1, &setup, threads, &format!("races incl. delete_node t={t} rep={rep}"), &mut conc);
+            dist.hit(&format!("conc.any_ops_with_delete_node.threads_{t}"));
+
+            // (d) no node deletions: edge creations, deletions of setup edges (the same edge possibly from
+            // several threads at once) and updates of setup edges that nobody deletes
+            let nn = rng.range(2, 5);
+            let mut setup = vec![];
+            for _ in 0..nn {
+                setup.push(Op::CreateNode);
+            }
+            let pre = rng.range(10, 40);
+            for _ in 0..pre {
+                let f = rng.range(1, nn);
+                setup.push(Op::CreateEdge(f, rng.range(1, nn), rng.chance(1, 2)));
+            }
+            let split = rng.range(1, pre); // ids <= split may be deleted, ids > split may be updated
+            let threads: Vec<Vec<Op>> = (0..t)
+                .map(|_| {
+                    (0..rng.range(20, 50))
+                        .map(|_| {
+                            let k = rng.below(100);
+                            if k < 40 {
+                                Op::CreateEdge(rng.range(1, nn), rng.range(1, nn), rng.chance(1, 2))
+                            } else if k < 75 || split == pre {
+                                Op::DeleteEdge(rng.range(1, split))
+                            } else {
+                                Op::UpdateEdge(rng.range(split + 1, pre))
+                            }
+                        })
+                        .collect()
+                })
+                .collect();
+            conc_case(0, &setup, threads, &format!("edge races (same edge from several threads) t={t} rep={rep}"), &mut conc);
+            dist.hit(&format!("conc.edge_ops_same_edges.threads_{t}"));
+        }
+    }
+
     write_meta(
         &args.out,
         json!({
